@@ -655,6 +655,10 @@ type c10Oracle struct {
 	evStart map[int]bool
 	evCnt   map[int]map[string]int
 	cnt     map[string]int64
+	// task side (walks with real transitions): the last value pushed to the tasks for each key; command
+	// arguments stay with a task until a later command overwrites them
+	taskView map[string]string
+	prevEnd  map[string]bool // end-of-run values of earlier brackets
 }
 
 var tsKinds = []string{vEOSOR, vSOEOR, vEOEOR}
@@ -665,7 +669,7 @@ func (o *c10Oracle) hit(r envlab.Record, class, detail string) {
 }
 
 func checkC10(recs []envlab.Record) ([]viol, map[string]int64) {
-	o := &c10Oracle{prevN: map[string]bool{}, prevS: map[string]bool{}, evStart: map[int]bool{}, evCnt: map[int]map[string]int{}, cnt: map[string]int64{}}
+	o := &c10Oracle{prevN: map[string]bool{}, prevS: map[string]bool{}, evStart: map[int]bool{}, evCnt: map[int]map[string]int{}, cnt: map[string]int64{}, taskView: map[string]string{}, prevEnd: map[string]bool{}}
 	for _, r := range recs {
 		switch r.Kind {
 		case envlab.KTransBegin:
@@ -676,6 +680,10 @@ func checkC10(recs []envlab.Record) ([]viol, map[string]int64) {
 			if r.Snap != nil {
 				o.cnt["snapshots"]++
 				o.snap(r)
+			}
+		case envlab.KBodyEnter:
+			if r.Snap != nil && strings.HasPrefix(r.Msg, "task command") {
+				o.taskCommand(r)
 			}
 		case kQuiescent:
 			o.cnt["quiescent_snapshots"]++
@@ -742,6 +750,9 @@ func (o *c10Oracle) open(r envlab.Record, m string, w int, pos string) {
 	prevPhase := ""
 	if o.br != nil {
 		prevPhase = o.br.phase
+		if v := o.br.ts[vSOEOR]; v != "" {
+			o.prevEnd[v] = true
+		}
 	}
 	o.cnt["start_attempts_with_number"]++
 	switch {
@@ -846,6 +857,43 @@ func (o *c10Oracle) in(r envlab.Record, vars map[string]string, pos string) {
 		}
 	}
 	o.order(r, vars)
+}
+
+// taskCommand: what the tasks see after the command of a real START_ACTIVITY / STOP_ACTIVITY. Only the
+// statement's "values of a previous run are never visible in the next" is judged: after START the
+// task-side end timestamp must read empty (it can only be the previous run's), and the run number /
+// start time / end time the tasks hold must not be those of an earlier attempt.
+func (o *c10Oracle) taskCommand(r envlab.Record) {
+	hadEnd := o.taskView[vSOEOR] != ""
+	for k, v := range r.Snap {
+		o.taskView[k] = v
+	}
+	b := o.br
+	if b == nil {
+		return
+	}
+	switch {
+	case o.occ.Event == "START_ACTIVITY" && b.k == o.occ.K && b.phase == "starting":
+		o.cnt["task_side_checks_at_start"]++
+		if hadEnd {
+			o.cnt["task_side_checks_at_restart_after_stop"]++
+		}
+		if v := o.taskView[vSOEOR]; v != "" {
+			o.hit(r, "PREV-RUN-VISIBLE/task-args/"+vSOEOR, fmt.Sprintf("after the START_ACTIVITY command of run %s the tasks still hold run_end_time_ms=%s, the end of a previous run: the cleared value was not pushed with START", b.N, v))
+		}
+		if v := o.taskView["runNumber"]; v != b.N && v != "" && o.prevN[v] {
+			o.hit(r, "PREV-RUN-VISIBLE/task-args/runNumber", fmt.Sprintf("the START_ACTIVITY command of run %s leaves the tasks with runNumber=%s, the number of an earlier attempt", b.N, v))
+		}
+		if v := o.taskView[vSOSOR]; v != b.S && v != "" && o.prevS[v] {
+			o.hit(r, "PREV-RUN-VISIBLE/task-args/"+vSOSOR, fmt.Sprintf("the START_ACTIVITY command of run %s leaves the tasks with run_start_time_ms=%s, the start of an earlier attempt (this run: %s)", b.N, v, b.S))
+		}
+	case o.occ.Event == "STOP_ACTIVITY" && b.phase == "active":
+		o.cnt["task_side_checks_at_stop"]++
+		cur := b.ts[vSOEOR]
+		if v := o.taskView[vSOEOR]; v != "" && cur != "" && v != cur && o.prevEnd[v] {
+			o.hit(r, "PREV-RUN-VISIBLE/task-args/"+vSOEOR, fmt.Sprintf("the STOP_ACTIVITY command of run %s leaves the tasks with run_end_time_ms=%s, the end of a previous run (this run: %s)", b.N, v, cur))
+		}
+	}
 }
 
 func (o *c10Oracle) order(r envlab.Record, vars map[string]string) {
